@@ -253,8 +253,16 @@ def build_scores(spec, L=None):
     simulator can check that the library never writes to them."""
     L = L or lib()
     dt = spec.get("dtype", "float64")
-    pos = np.asarray(spec["pos"], dtype=dt)
-    neg = np.asarray(spec["neg"], dtype=spec.get("dtype_neg", dt))
+    if spec.get("synth"):
+        # a very large source described by its size and a seed instead of by its values (tens of thousands of scores:
+        # counts beyond int16 / uint16, sizes beyond 2**15 and 2**16); harness-owned generator, not the seam's stream
+        sy = spec["synth"]
+        rs_ = np.random.RandomState(int(sy["seed"]))
+        pos = np.round(rs_.normal(1.0, 2.0, size=int(sy["n_pos"])), int(sy.get("decimals", 2))).astype(dt)
+        neg = np.round(rs_.normal(-1.0, 2.0, size=int(sy["n_neg"])), int(sy.get("decimals", 2))).astype(spec.get("dtype_neg", dt))
+    else:
+        pos = np.asarray(spec["pos"], dtype=dt)
+        neg = np.asarray(spec["neg"], dtype=spec.get("dtype_neg", dt))
     is_sorted = bool(spec.get("presorted", False))
     if is_sorted:
         pos = np.sort(pos)
